@@ -1740,4 +1740,144 @@ theorem langIn_eq_of_ne_zero (l m : Nat) (hm : m = 2 ∨ m = 4) (h : l ≠ 0) :
     rw [beq_eq_false_iff_ne.mpr h2, beq_eq_false_iff_ne.mpr h3]
 
 
+/-! ## Where the error points -/
+
+/-- `t` is a rune at which Quote stops with error kind `k`. -/
+def Offending (l : Lang) (k : ErrKind) (t : Tok) : Prop :=
+  match k with
+  | .null => t.r = 0
+  | .posix => t.r ≠ 0 ∧ langIn l langPOSIX = true ∧ nonPrint t.r = true
+  | .mksh => langIn l langMksh = true ∧ t.r > 0xFFFD ∧ isPrint t.r = false
+  | .range => False
+
+def sizes (ts : List Tok) : Nat := (ts.map Tok.size).sum
+
+theorem sizes_raw : ∀ ts : List Tok, (∀ t ∈ ts, TokOK t) → sizes ts = (ts.flatMap Tok.raw).length := by
+  intro ts
+  induction ts with
+  | nil => intro _; rfl
+  | cons t ts ih =>
+    intro h
+    have ht : t.size = t.raw.length := by
+      rcases h t (List.mem_cons_self ..) with ⟨_, h2, b, hb, _⟩ | ⟨_, h2⟩
+      · rw [h2, hb]; rfl
+      · exact h2
+    have := ih fun t' m => h t' (List.mem_cons_of_mem _ m)
+    simp only [sizes, List.map_cons, List.sum_cons, List.flatMap_cons, List.length_append] at this ⊢
+    omega
+
+theorem scan_error_at (l : Lang) : ∀ (ts : List Tok) (offs : Nat) (sc np : Bool) (e : QErr),
+    scan l ts offs sc np = .error e →
+    ∃ pre t post, ts = pre ++ t :: post ∧ e.offs = offs + sizes pre ∧ Offending l e.kind t ∧
+      (∀ t' ∈ pre, ¬ Offending l .null t' ∧ ¬ Offending l .posix t') := by
+  intro ts
+  induction ts with
+  | nil => intro offs sc np e h; simp only [scan] at h; cases h
+  | cons t ts ih =>
+    intro offs sc np e h
+    have step : ∀ sc' np', t.r ≠ 0 → ¬(langIn l langPOSIX = true ∧ nonPrint t.r = true) →
+        scan l ts (offs + t.size) sc' np' = .error e →
+        ∃ pre t' post, t :: ts = pre ++ t' :: post ∧ e.offs = offs + sizes pre ∧
+          Offending l e.kind t' ∧ (∀ t'' ∈ pre, ¬ Offending l .null t'' ∧ ¬ Offending l .posix t'') := by
+      intro sc' np' h0 hnp hrec
+      obtain ⟨pre, t', post, e1, e2, e3, e4⟩ := ih _ _ _ _ hrec
+      refine ⟨t :: pre, t', post, by rw [e1]; rfl, ?_, e3, ?_⟩
+      · rw [e2]; simp only [sizes, List.map_cons, List.sum_cons]; omega
+      · intro t'' m
+        rcases List.mem_cons.mp m with rfl | m
+        · exact ⟨h0, fun ⟨_, a, b⟩ => hnp ⟨a, b⟩⟩
+        · exact e4 t'' m
+    by_cases c0 : t.r = 0
+    · simp only [scan, c0, ↓reduceIte] at h; cases h
+      exact ⟨[], t, ts, rfl, by simp [sizes], c0, by simp⟩
+    by_cases c1 : nonPrint t.r = true
+    · by_cases c2 : langIn l langPOSIX = true
+      · simp only [scan, c0, c1, c2, ↓reduceIte] at h; cases h
+        exact ⟨[], t, ts, rfl, by simp [sizes], ⟨c0, c2, c1⟩, by simp⟩
+      · simp only [scan, c0, c1, c2, ↓reduceIte] at h
+        exact step _ _ c0 (fun ⟨a, _⟩ => c2 a) h
+    · simp only [scan, c0, c1, ↓reduceIte] at h
+      exact step _ _ c0 (fun ⟨_, b⟩ => c1 b) h
+
+theorem dollar_error_at (l : Lang) : ∀ (ts : List Tok) (offs : Nat) (last : Bool) (e : QErr),
+    (∀ t ∈ ts, TokOK t) → dollarBody l ts offs last = .error e →
+    ∃ pre t post, ts = pre ++ t :: post ∧ e.offs = offs + sizes pre ∧ e.kind = .mksh ∧
+      Offending l .mksh t ∧ (∀ t' ∈ pre, ¬ Offending l .mksh t') := by
+  intro ts
+  induction ts with
+  | nil => intro offs last e _ h; simp only [dollarBody] at h; cases h
+  | cons t ts ih =>
+    intro offs last e hok h
+    simp only [dollarBody] at h
+    cases hp : piece l last t with
+    | error k =>
+      rw [hp] at h; simp only at h; cases h
+      obtain ⟨rfl, a, b, c⟩ := (piece_error_iff l last t k (hok t (List.mem_cons_self ..))).mp hp
+      exact ⟨[], t, ts, rfl, by simp [sizes], rfl, ⟨a, b, c⟩, by simp⟩
+    | ok r =>
+      obtain ⟨p, nxt⟩ := r
+      rw [hp] at h; simp only at h
+      cases hd : dollarBody l ts (offs + t.size) nxt with
+      | ok rest => rw [hd] at h; simp only at h; cases h
+      | error e' =>
+        rw [hd] at h; simp only at h; cases h
+        obtain ⟨pre, t', post, e1, e2, e3, e4, e5⟩ :=
+          ih _ _ _ (fun t' m => hok t' (List.mem_cons_of_mem _ m)) hd
+        refine ⟨t :: pre, t', post, by rw [e1]; rfl, ?_, e3, e4, ?_⟩
+        · rw [e2]; simp only [sizes, List.map_cons, List.sum_cons]; omega
+        · intro t'' m
+          rcases List.mem_cons.mp m with rfl | m
+          · intro ⟨a, b, c⟩
+            have := (piece_error_iff l last t'' .mksh (hok t'' (List.mem_cons_self ..))).mpr
+              ⟨rfl, a, b, c⟩
+            rw [hp] at this; cases this
+          · exact e5 t'' m
+
+/-- The reported byte offset is where the first offending rune (for the reported kind) starts:
+    the decode steps split as `pre ++ t :: post`, `ByteOffset` is the total length of `pre`. -/
+theorem quote_error_at (l : Lang) (s : Bytes) (e : QErr) (h : quote l s = .error e) :
+    ∃ pre t post, runes s = pre ++ t :: post ∧ e.offs = (pre.flatMap Tok.raw).length ∧
+      Offending l e.kind t ∧ ∀ t' ∈ pre, ¬ Offending l e.kind t' := by
+  have hok := runes_ok s
+  have hsz : ∀ pre t post, runes s = pre ++ t :: post → sizes pre = (pre.flatMap Tok.raw).length := by
+    intro pre t post hr
+    exact sizes_raw pre fun t' m => hok t' (by rw [hr]; exact List.mem_append_left _ m)
+  by_cases hs : s = []
+  · subst hs; simp [quote] at h
+  unfold quote at h
+  simp only [hs, ↓reduceIte] at h
+  cases hsc : scan l (runes s) 0 false false with
+  | error e' =>
+    rw [hsc] at h; cases h
+    obtain ⟨pre, t, post, e1, e2, e3, e4⟩ := scan_error_at l _ _ _ _ e hsc
+    refine ⟨pre, t, post, e1, by rw [e2, hsz pre t post e1]; simp, e3, ?_⟩
+    intro t' m
+    have := e4 t' m
+    cases hk : e.kind <;> rw [hk] at e3
+    · exact this.1
+    · exact this.2
+    · exact absurd e3 id
+    · intro _
+      rcases scan_error l _ _ _ _ e hsc with ⟨a, _⟩ | ⟨a, _⟩ <;> rw [hk] at a <;> cases a
+  | ok r =>
+    obtain ⟨sc, np⟩ := r
+    rw [hsc] at h; simp only at h
+    by_cases hb : (!sc && !np && !isKeyword s) = true
+    · simp only [hb, ↓reduceIte] at h; cases h
+    · simp only [hb, Bool.false_eq_true, ↓reduceIte] at h
+      cases hnp : np with
+      | false =>
+        rw [hnp] at h; simp only [Bool.false_eq_true, ↓reduceIte] at h
+        split at h <;> cases h
+      | true =>
+        rw [hnp] at h; simp only [↓reduceIte] at h
+        cases hd : dollarBody l (runes s) 0 false with
+        | ok body => rw [hd] at h; cases h
+        | error e' =>
+          rw [hd] at h; cases h
+          obtain ⟨pre, t, post, e1, e2, e3, e4, e5⟩ := dollar_error_at l _ _ _ e hok hd
+          refine ⟨pre, t, post, e1, by rw [e2, hsz pre t post e1]; simp, by rw [e3]; exact e4, ?_⟩
+          rw [e3]; exact e5
+
+
 end ShVerif.C13
